@@ -148,6 +148,12 @@ def run_impl(c):
             db = gffutils.create_db(data, dbfn, checklines=c["checklines"], transform=look_aside if busy else None, **kw)
             out["db_dirs"] = ["ok", list(db.directives)]
             out["db_count"] = ["ok", db.count_features_of_type()]
+            # the same import with the dialect re-examined on every line (force_dialect_check; the importer is named, since
+            # there is then no file-wide dialect to choose it by): all directives again
+            if busy:
+                db3 = gffutils.create_db(data, ":memory:", checklines=c["checklines"], force_dialect_check=True, force_gff=True, **kw)
+                if list(db3.directives) != list(db.directives):
+                    out["db_dirs"] = ["ok", ["<force_dialect_check>"] + list(db3.directives)]
             # an update that is refused (the first stored feature once more, merge_strategy='error') leaves the directives alone
             first = next(iter(db.all_features()), None)
             if first is not None:
